@@ -16,7 +16,7 @@ def gen(rng, tier):
     for cont in ("stack", "locked"):
         for n in ((8, 16, 24, 32, 64) if cont == "stack" else (16, 24, 32, 64)):
             for k in range(0, 2 * n + 1):
-                for fmt in ("json", "bincode", "jsonstr", "jsonval"):
+                for fmt in ("json", "bincode", "jsonstr", "jsonval", "bincodeR", "jsonstrR", "jsonR"):
                     p = rbytes(rng, k) if k % 3 else b"\x07" * k
                     exp = "ok" if k == n else "err"
                     cs.append(Case("serde_fixed %s %d %s %s" % (cont, n, fmt, hx(p)), cls="fixed/%s/%s/%s" % (cont, fmt, "exact" if k == n else ("short" if k < n else "long")),
@@ -38,7 +38,7 @@ def gen(rng, tier):
         cs.append(Case("tryfrom signkeypair 0 %s" % hx(spk + ssk), cls="from_slices/signkeypair", expect=("ok " + hx(spk + ssk)) if k % 3 != 1 else "err"))
     for cont in ("vec", "heap", "locked"):
         for k in list(range(0, 70)) + [127, 128, 129, 4095, 4096, 4097]:
-            for fmt in ("json", "bincode", "jsonval"):
+            for fmt in ("json", "bincode", "jsonval", "bincodeR", "jsonR"):
                 p = rbytes(rng, k)
                 cs.append(Case("serde_bytes %s %s %s" % (cont, fmt, hx(p)), cls="bytes/%s/%s" % (cont, fmt), expect="ok " + hx(p)))
     # the signed-message framing is strict for every signature container (stack, Vec, heap): fewer than 64 bytes never parse
